@@ -2452,6 +2452,10 @@ class ModuleInfo(object):
         """
         f_helper = wformat(helpers, fmt)
         for i, helper in enumerate(f_helper.split()):
+            if helper not in whelpers.FHelpers:
+                raise RuntimeError(
+                    "No Fortran helper '{}': the type is not supported "
+                    "by the statements '{}'".format(helper, helpers))
             self.f_helper[helper] = True
             setattr(fmt, "hnamefunc" + str(i),
                     whelpers.FHelpers[helper].get("name", helper))
